@@ -15,9 +15,17 @@ def fresh_name(prefix: str) -> str:
     return f"{prefix}!{next(_counter)}"
 
 
+_idents = itertools.count(1)
+
+
+def next_ident():
+    return next(_idents)
+
+
 def reset_names():
-    global _counter
+    global _counter, _idents
     _counter = itertools.count(1)
+    _idents = itertools.count(1)
 
 
 class Sym:
@@ -79,7 +87,7 @@ class Obj:
     def __init__(self, cls, fields=None, ident=None, frozen=False, cls_t=None, tag=None):
         self.cls = cls
         self.fields = fields if fields is not None else {}
-        self.ident = ident if ident is not None else z3.IntVal(next(_counter) + 10**6)
+        self.ident = ident if ident is not None else z3.IntVal(next_ident() + 10**6)
         self.frozen = frozen
         self.cls_t = cls_t  # exception leaf term (z3) when this is an exception instance
         self.tag = tag
@@ -132,7 +140,7 @@ class EnvFn:
 
     def __init__(self, tag, ident=None, attrs=None):
         self.tag = tag
-        self.ident = ident if ident is not None else z3.IntVal(next(_counter) + 2 * 10**6)
+        self.ident = ident if ident is not None else z3.IntVal(next_ident() + 2 * 10**6)
         self.attrs = attrs or {}
 
     def __repr__(self):
@@ -179,7 +187,7 @@ class DequeV:
         self.arr = arr
         self.lo = lo
         self.hi = hi
-        self.ident = ident if ident is not None else z3.IntVal(next(_counter) + 3 * 10**6)
+        self.ident = ident if ident is not None else z3.IntVal(next_ident() + 3 * 10**6)
 
     def __repr__(self):
         return f"DequeV(lo={self.lo},hi={self.hi})"
